@@ -107,20 +107,20 @@ for _p in ("C13",):
 
 RULES = {
     "C19": "Events per value type (36 numeric vector and quaternion types, 7 matrix, 4 affine, 5 mask types): serde through an exact in-memory token-stream Serializer/Deserializer - the stream must be TupleStruct{name, N} + N scalar tokens in lane / column-major order + End, deserialise back bit-identically (NaN payloads, -0), sequences of every length 0..N+2 (short must be rejected; long: exactly N requested and consumed), serde_json text round trip of finite values and rejection of one element more / fewer, and the JSON text of the same seeded values compared byte-for-byte between SIMD and scalar-math builds; bytemuck - for every Pod type size_of = N*size_of(scalar), bytes_of = elements in order, cast there and back for random bit patterns, cast_slice, zeroed; AnyBitPattern-only types decode their elements from the modelled offsets of arbitrary bytes; the Pod set is probed at compile time (autoref) so a Pod impl on a padded type is caught; rkyv to_bytes / access / deserialize with the element bytes at the modelled offsets; mint to-and-back and entry (r,c) preservation for column- and row-major matrices; Miri reads every byte of bytes_of.",
-    "C20": "Programs of 2-12 operations drawn from 46 precondition-carrying operation groups (normalize family, any_orthonormal_*, every rotation constructor, unit-quaternion product / inverse / lerp / slerp / rotate_towards, from_rotation_arc incl. exactly opposite, look_to/look_at, TRS compose -> decompose -> recompose, inverse -> transform, to_euler/from_euler, to_axis_angle/from_axis_angle, clamp_length*, reflect/refract, projection ...) for the f32 and f64 families; every operand comes from typed pools of values produced by glam itself (unit vectors, unit quaternions, rotation matrices, shear-free TRS matrices, affine matrices) or from finite non-degenerate seeds (including tiny vectors whose squared length is still normal). Monitors: no program panics in glam-assert builds; after every step every pooled value is checked against the predicate it will be used under (|len^2 - 1| <= 2e-4, affine row within 1e-6) and the margin consumed is recorded; 24 documented violations panic exactly when the assertions are compiled in; the same programs are traced in builds with and without glam-assert (sse2 and scalar) and every returned word compared bit-for-bit. Events = programs + compared records.",
+    "C20": "Programs of 2-12 operations drawn from 46 precondition-carrying operation groups (normalize family, any_orthonormal_*, every rotation constructor, unit-quaternion product / inverse / lerp / slerp / rotate_towards, from_rotation_arc incl. exactly opposite, look_to/look_at, TRS compose -> decompose -> recompose, inverse -> transform, to_euler/from_euler, to_axis_angle/from_axis_angle, clamp_length*, reflect/refract, projection ...) for the f32 and f64 families; every operand comes from typed pools of values produced by glam itself (unit vectors, unit quaternions, rotation matrices, shear-free TRS matrices, affine matrices) or from finite non-degenerate seeds (including tiny vectors whose squared length is still normal). Monitors: no program panics in glam-assert builds; after every step every pooled value is checked against the predicate it will be used under (|len^2 - 1| <= 2e-4, affine row within 1e-6) and the margin consumed is recorded; a second vocabulary (c20v) runs the same kind of chains over each of the 7 float vector types (Vec2, Vec3, Vec3A, Vec4, DVec2, DVec3, DVec4: normalize family, clamp with partially coinciding bounds, clamp_length*, project/reject(_normalized), reflect, refract, any_ortho*, vector rotate_towards and slerp incl. exactly (anti)parallel operands, 2-D from_angle/rotate/rotate_towards) with Vec3A operands of every provenance (from Vec3, from_vec4 with 0/inf/NaN fourth lane, quotients by a w = 0 column) and checks is_finite() against the visible lanes; try_normalize/normalize_or(_zero) totality over magnitudes from below the smallest subnormal to overflow (result is the fall-back or passes is_normalized); a catalogue of ~800 documented violations - one minimal violation per glam_assert conjunct, operand and lane (single-lane min > max for all 34 vector types, one non-unit operand at x2/x0.5/x1.001/x0.999, one matrix axis, one homogeneous-row element off by 2e-6, one near/far plane) - must panic exactly when the assertions are compiled in; the same programs are traced in builds with and without glam-assert (sse2 and scalar) and every returned word compared bit-for-bit. Events = programs + compared records.",
     "C07": "Each build of the working tree (sse2, scalar-math, +fma,+avx2; core-simd and target-cpu=native in thorough) records the same seeded workload into a trace: every registry entry that involves one of the eight SIMD-backed types (524 entries: inherent functions, operators, conversions, Display/Debug) called on finite inputs, each call re-executed 8 times on inputs moved by up to 64 ulp (conditioning probe), plus random programs of 2-8 operations chained through a typed value pool. An offline comparator walks pairs of traces in lock-step: SIMD vs scalar (and core-simd): |a - b| <= (largest change under the 64-ulp perturbations) + 32 eps x (largest input scalar / output lane of the call) per float word, discrete outcomes (bool / Option / index) equal unless they flip under the perturbations (boundary), Debug/Display text hash equal whenever the values are bit-equal; sse2 vs +fma / native: every word of every record, including the chained programs, bit-for-bit (NaN sign/payload excepted: unspecified in Rust). Events = records compared; distinct = entries.",
-    "C08": "Twin execution: every registry entry that takes or returns a Vec3A, Mat3A, Affine3A or BVec3A (261 entries: own methods, operators, Sum/Product, PartialEq, Hash, Display/Debug, From impls, and functions of Quat / Mat4 / Mat3 / Affine3A taking them) is executed on arguments with bit-identical visible lanes whose hidden fourth lane holds each of {0, 1, -1, 3e38, min subnormal, +inf, -inf, quiet NaN, signalling NaN, all-ones} injected through three public routes (Vec3A::from_vec4, a computed register, From<raw register>; masks through comparisons of such vectors), on ordinary and special-value visible lanes; all captured visible outputs (lanes, scalars, bools, Options, strings, hashes, bitmasks) must be bit-identical to the run with the natural hidden lane. Plus random programs of 2-6 such operations chained through a typed value pool so that hidden lanes computed by glam itself feed later operations. Every event is one poisoned execution; distinct = (entry, poison, route, input mode).",
+    "C08": "Twin execution: every registry entry that takes or returns a Vec3A, Mat3A, Affine3A or BVec3A (about 870 entries incl. the 495 swizzle getters/setters of Vec3A/Vec4: own methods, operators, Sum/Product, PartialEq, Hash, Display/Debug, From impls, and functions of Quat / Mat4 / Mat3 / Affine3A taking them) is executed on arguments with bit-identical visible lanes whose hidden fourth lane holds each of {0, 1, -1, 3e38, min subnormal, +inf, -inf, quiet NaN, signalling NaN, all-ones} injected through three public routes (Vec3A::from_vec4, a computed register, From<raw register>; masks through comparisons of such vectors), on ordinary and special-value visible lanes, and in a `mixed` mode where every padded operand drawn in one call gets a different hidden content and route (so `a == b`, `a * b`, `select(m, a, b)` see operands that differ only there); all captured visible outputs (lanes, scalars, bools, Options, strings, hashes, bitmasks) must be bit-identical to the run with the natural hidden lane. Plus random programs of 2-6 such operations chained through a typed value pool so that hidden lanes computed by glam itself feed later operations. Every event is one poisoned execution; distinct = (entry, poison, route, input mode).",
     "C18": "Events: (1) panic monitor - every entry of the generated registry (all 1530 public inherent functions, operator / Neg / Index / PartialEq / Sum / Product / Display / From impls of the float vector, quaternion, matrix, affine and SIMD mask types) called under catch_unwind with each scalar argument slot in turn set to special-value lattice values (zero, -0, subnormal, tiny, huge, +-inf, NaNs) plus random lattice tuples and ordinary values; indices in range and slices long enough, so any panic is undocumented; (2) slice monitor - from_slice / write_to_slice / from_cols_slice / write_cols_to_slice of 29 types with every length 0..N+4 on sentinel windows and exactly sized heap slices: success reads/writes exactly the first N elements, short slices panic and leave the destination bit-identical; (3) Index/IndexMut, col/row/col_mut, test/set with indices 0..7 and usize::MAX; (4) pointer-cast conversions of the SIMD types; the same workload under AddressSanitizer (exact-size heap buffers), Miri (one call of each of the SIMD-type entries plus slices) and, in thorough, valgrind memcheck on the optimised binary. distinct = distinct (entry, hot slot, round class).",
     "C10": "Events: scale / rotation / translation triples with |scale| in [1e-3,1e3], every sign pattern (8 in 3-D, 4 in 2-D), rotations from the structured unit-quaternion generator (all four matrix->quaternion branches), translations over 16 decades. Compose: every SRT constructor of Mat4/DMat4, Affine3A/DAffine3, Affine2/DAffine2, Mat3/Mat3A (2-D), Mat2 and the product of glam's elementary constructors vs the double-double T*R*S (8 eps |s_c| per entry, translation bit-exact). Decompose: translation = last column bit-exact, unit rotation, |scale| = column lengths, negative x scale iff det < 0, recomposition reproduces the input (32 eps |s_c|). Cells (sign pattern x branch) are tabulated; an empty cell makes the run inconclusive.",
     "C11": "Events: cameras (unit dir and up with |dir x up| >= 1.2e-3 incl. nearly parallel hints, eyes over 13 decades, look_at centres) through look_to/look_at of Mat4, Affine3A, Quat, Mat3, Mat3A and f64 forms: orthonormal, det +1, dir -> -Z (rh) / +Z (lh), up hint -> x = 0 and y > 0 (16 eps / |dir x up|), eye -> origin; every perspective_* (fov in (1e-2, pi-1e-2), aspect 1e-2..1e2, far/near from 1.001 to 1e6) and orthographic_* constructor: frustum corners, centres and interior points at several depths pushed through the stored matrix in f64 must land on the documented NDC values, clip w = -z / +z exactly; project_point3(a) = xyz/w of M*(p,1).",
-    "C12": "Events: lerp end points on all finite lattice pairs (IEEE equality); move_towards (partial / reach / snap-radius boundary zones); clamp_length*, rotate_towards (2-D, 3-D: clamped request incl. negative, length, angle from start, angle to target), vector slerp (zones regular / near_parallel / near_antiparallel), any_orthogonal/orthonormal over the whole sphere incl. z = -1 and z = +-0; quaternion lerp / slerp against the exact interpolants along the shorter arc with partners at angles 1e-7.5..pi-1e-7, Quat::rotate_towards (partial / reach / 1e-4 snap boundary), from_rotation_arc(_colinear, _2d) incl. exactly opposite and equal inputs; FloatExt lerp/inverse_lerp/remap. Angle-derived tolerances: 1e-6 (f32 polynomial acos/sin) + 16 eps / sin(theta).",
-    "C05": "Events: (a) every typed conversion path of length <= 4 through the 9-node 3-D representation graph (Quat, Mat3, Mat3A, Mat4, Affine3A, DQuat, DMat3, DMat4, DAffine3; 39 edges incl. f32<->f64 casts) from seeds of four classes (pure rotation from the structured unit-quaternion generator, rigid, general affine with scale/shear, linear): at every node every action form (q*v, M*v, transform_point3/vector3(a), project_point3, M*(p,1)) on probe points is compared with the double-double action of the seed under k*eps_path*(|M|max*|p|+|t|); (b) matrix->quaternion->matrix round trips with bookkeeping of the four conversion branches and their boundaries (a branch never taken makes the run inconclusive); (c) laws: conversion commutes with composition, inversion, identity; (d) the 2-D graph (Affine2, Mat3, Mat3A, Mat2, f64 forms). distinct = distinct (path length, end representation) / (branch, generator kind, boundary flag).",
+    "C12": "Events: lerp end points on all finite lattice pairs (IEEE equality); move_towards (partial / reach / snap-radius boundary zones); clamp_length*, rotate_towards (2-D, 3-D: clamped request incl. negative, length, angle from start, angle to target), vector slerp (zones regular / near_parallel / near_antiparallel), any_orthogonal/orthonormal over the whole sphere incl. z = -1 and z = +-0; quaternion lerp / slerp against the exact interpolants along the shorter arc with partners at angles 1e-7.5..pi-1e-7, Quat::rotate_towards (partial / reach / 1e-4 snap boundary), from_rotation_arc(_colinear, _2d) incl. exactly opposite and equal inputs; FloatExt lerp/inverse_lerp/remap. Angle-derived tolerances: 1e-6 (f32 polynomial acos/sin) + 16 eps / sin(theta). In the two zones with recorded findings the monitor also evaluates the finding's quantitative envelope and tags anything outside it `gross`, which the known-finding entries do not match.",
+    "C05": "Events: (a) every typed conversion path of length <= 4 through the 9-node 3-D representation graph (Quat, Mat3, Mat3A, Mat4, Affine3A, DQuat, DMat3, DMat4, DAffine3; 39 edges incl. f32<->f64 casts) from seeds of four classes (pure rotation from the structured unit-quaternion generator, rigid, general affine with scale/shear, linear): at every node every action form (q*v, M*v, transform_point3/vector3(a), project_point3, M*(p,1)) on probe points is compared with the double-double action of the seed under k*eps_path*(|M|max*|p|+|t|); (b) matrix->quaternion->matrix round trips with bookkeeping of the four conversion branches and their boundaries (a branch never taken makes the run inconclusive); (c) laws: conversion commutes with composition, inversion, identity, incl. every mixed product affine x matrix in both operand orders (Affine3A/Mat4, Affine2/Mat3/Mat3A, f64 forms) and from(a*b) = from(a)*from(b) for the 2-D and f64 families; Vec3A probes come from Vec3 and from from_vec4 with arbitrary fourth lane; (d) the 2-D graph (Affine2, Mat3, Mat3A, Mat2, f64 forms). distinct = distinct (path length, end representation) / (branch, generator kind, boundary flag).",
     "C06": "For each of the 11 matrix/affine types: entries tagged with pairwise distinct bit patterns (NaN payloads, -0, subnormal, infinities; then random bits) are written through every write path (from_cols, from_cols_array, from_cols_array_2d, from_cols_slice incl. longer slices, col_mut, axis fields, AsMut) and read through every read path (to_cols_array(_2d), write_cols_to_slice, col(c)[r], row(r)[c], axis fields, AsRef): every ordered pair of paths, every (r,c), bit-for-bit; transpose; from_diagonal; all (i,j) of the six minor constructors incl. out-of-range (must panic); col/row/col_mut index range; affine transform_point = linear*p + translation under an analytic bound and transform_vector bit-identical when only the translation changes.",
     "C09": "Events: from_axis_angle / from_rotation_x,y,z / from_scaled_axis on Quat, Mat3, Mat3A, Mat4, Affine3A and f64 forms vs the Rodrigues matrix evaluated in double-double from the same angle value (angles dense in [-4pi,4pi], multiples of pi/2 +- 1e-3, tiny, up to 1e6 rad; uniform, axis-aligned and near-axis unit axes), orthonormality, det +1, unit quaternions; from_euler for all 24 variants vs the product of the three reference single-axis rotations in the spelled order (Ex reversed), identically on all types; to_euler rebuild on arbitrary unit quaternions and on triples whose middle angle is within 1e-7.5..1 of the singularity (inputs built by the reference, not by glam), tolerance 16 eps (1 + 1/d) with d measured on the input matrix, 64 eps inside the gimbal branch; to_axis_angle / to_scaled_axis rebuild; 2-D from_angle forms, to_angle, rotate. distinct = (order, zone) / (generator kinds).",
     "C02": "Every event is one call of a geometric method of a float vector type on generated inputs (dense / moderate / mixed-magnitude / single-axis / small-integer / range-edge / sparse / unit vectors crossed with independent, near-parallel, near-antiparallel, near-orthogonal, exactly parallel and same-scale partners; the lattice of zero / subnormal / tiny / huge / non-finite values for the normalize family). The result is compared with the value recomputed in f64 (f32 APIs) or double-double (f64 APIs) under |err| <= k*eps*S with S = sum of |terms| of the documented formula; angles against atan2(|a x b|, a.b); fallbacks of the normalize family bit-for-bit. Inputs whose intermediate products under/overflow are counted as out of domain. Non-trivial = the exact result is well above the bound (distinguishable from zero); distinct = distinct (type, op, generator-kind pair).",
     "C03": "Events: (a) exact integer lattice - all 83521 2x2 matrices in [-8,8], the 3x3 lattice [-2,2] (stride 7 quick, all 1953125 thorough), random dense / sparse / rank-deficient / signed-permutation integer matrices of every size: products, determinant, transpose, add/sub/scale through every method/operator form must be exact, inverse*det the exact adjugate; (b) random bit patterns for transpose/neg; (c) real matrices U*diag*V with condition number up to 1e4 (f32) / 1e10 (f64): per-entry bounds k*eps*S for products and determinant (S = sum of |terms|), inverse against adj/det with k*eps*(adjabs/|det| + |inv|*detabs/|det|), and M*inv = inv*M = I. distinct = distinct (type, generator kind, condition decade).",
     "C04": "Events: integer quaternions in [-8,8] (exact Hamilton product through every product form), random bit patterns for conjugate/neg (sign-bit xor on x,y,z only), random unit (structured: uniform, near-identity, near/at half-turn, single-axis, w near 0) and non-unit quaternions for +,-,*s,/s,dot,length,normalize and the product (k*eps*sum|terms|), and rotation of vectors by unit quaternions through every form (mul_vec3, *, mul_vec3a, Vec3A) against the f64/double-double evaluation of q v q^-1 with 16*eps*|v|, length preservation, (qp)v = q(pv), q^-1(qv) = v, (-q)v = qv.",
-    "C13": "Every event is one call of a public operator/method of an integer vector type. 8-bit types: all 65536 operand pairs of every binary operation (swept pair in a rotating lane among benign lanes, and all lanes hostile); 16-bit: all values for unary ops, all 2^32 pairs for the core families in thorough; wider types: boundary lattice pairs and random. The expected lane is the Rust primitive; checked_* must be None iff some lane's primitive is None; the call must panic iff some lane's primitive panics in this profile (release: div by zero, MIN/-1; dbg: also overflow). Non-trivial = operand lanes not all equal; distinct = distinct (type, op, per-lane class tuple, panic expectation).",
+    "C13": "Every event is one call of a public operator/method of an integer vector type. 8-bit types: all 65536 operand pairs of every binary operation (swept pair in a rotating lane among benign lanes, and all lanes hostile); 16-bit: all values for unary ops, all 2^32 pairs for the core families in thorough; wider types: boundary lattice pairs and random; shift counts cover 0..bits+1, 2^8.., 2^16.., 2^32.., 2^40, 2^63 and their negatives for every count type. The expected lane is the Rust primitive; checked_* must be None iff some lane's primitive is None; the call must panic iff some lane's primitive panics in this profile (release: div by zero, MIN/-1; dbg: also overflow). Non-trivial = operand lanes not all equal; distinct = distinct (type, op, per-lane class tuple, panic expectation).",
     "C14": "Every event is one conversion call (as_* cast, From, TryFrom, mask conversion, tuple/extend/truncate/Vec3A/Quat structural conversion; 733 generated entries). Sources: all values of 8/16-bit scalars, integer/float boundary sets (2^k +- d, type MIN/MAX +- ulps, +-0.5) and random bits for wider ones, a stride sweep (quick) / all 2^32 patterns (thorough) for f32 sources, each value rotating through every lane and alone among benign lanes. Expected lane = `as` / From / TryFrom of the primitive; structural conversions bit-for-bit. Non-trivial = lanes not all equal.",
     "C15": "Masks: all 2^N values of each of the 5 mask types, built through every construction route (new, from_array, From, set from default / all-true, !!, comparisons of vectors incl. every hidden-lane state for BVec3A), all observers (bitmask, any, all, test/set at every index incl. invalid ones which must panic, !, ==, Hash, Debug, Display, [bool;N], [u32;N]) against a [bool;N] model; all ordered pairs for & | ^ and assign forms; SIMD masks vs bool-field masks. cmp* on all 34 numeric vector types: every ordered pair of the special-value pool in every lane plus random; select for all masks on tagged operands bit-for-bit. Non-trivial = mask neither empty nor full / operands differ.",
     "C16": "All 28+117+336 getter names and all 6+36 with_ setter names (generated from the letters) on each of the 34 implementing types, on pairwise-distinct tagged lanes (NaN payloads, -0), equal lanes and random bits, and for Vec3A with seven hidden-lane contents: result lane i must be bit-for-bit the source lane named by letter i, result type as documented; with_ replaces exactly the named lanes; writing back what was read is the identity. Non-trivial = pairwise distinct tagged lanes.",
